@@ -189,6 +189,44 @@ fn combine_rows(recs: &[String]) -> J {
     }).collect())
 }
 
+fn random_corpus(rng: &mut rand::rngs::StdRng, dir: &std::path::Path, round: usize) -> Option<Corpus> {
+    let leak = |s: String| -> &'static str { Box::leak(s.into_boxed_str()) };
+    for _ in 0..20 {
+        let (pats, cols) = crate::extracttrace::gen_definition(rng);
+        let sql = match crate::extracttrace::definition_sql(&pats, &cols) { Some(s) => s, None => continue };
+        let tables = match setup_tables(&sql) { Ok(t) => t, Err(_) => continue };
+        let stmt = sqlgrep::parsing::parse("SELECT * FROM x").unwrap();
+        let mut lines = Vec::new();
+        let mut noise: Vec<&'static str> = Vec::new();
+        while lines.len() < 25 {
+            let l = crate::extracttrace::gen_line(rng, &cols);
+            if l.ends_with('\r') || l.contains('\n') { continue; }       // (in a file that CR would belong to the line end)
+            let row = std::panic::catch_unwind(std::panic::AssertUnwindSafe(|| {
+                let mut engine = ExecutionEngine::new(&tables, &stmt);
+                matches!(engine.execute(l.clone(), &ExecutionConfig::default()), Ok(o) if o.result_row.is_some())
+            })).unwrap_or(true);
+            if !row && noise.len() < 6 { noise.push(leak(l.clone())); }
+            lines.push(l);
+        }
+        let defs = dir.join(format!("rnd_defs{}.txt", round % 4));
+        let data = dir.join(format!("rnd_data{}.txt", round % 4));
+        std::fs::write(&defs, &sql).unwrap();
+        std::fs::write(&data, lines.iter().map(|l| format!("{}\n", l)).collect::<String>()).unwrap();
+        return Some(Corpus { name: "random-definition", defs: leak(defs.to_str().unwrap().to_string()), data: leak(data.to_str().unwrap().to_string()),
+                             queries: vec![
+                                 q("SELECT * FROM x", false, false),
+                                 q("SELECT DISTINCT c1 FROM x", false, false),
+                                 q("SELECT c1, input FROM x WHERE c1 IS NOT NULL", false, false),
+                                 q("SELECT c1, COUNT(*) AS n FROM x GROUP BY c1", true, false),
+                                 q("SELECT COUNT(*) AS n, COUNT(c1) AS m FROM x", true, true),
+                                 q("SELECT COUNT(*) * 2 AS n FROM x", true, true),
+                                 q("SELECT DISTINCT COUNT(*) AS n FROM x GROUP BY c1", true, false),
+                             ],
+                             noise, combine: None });
+    }
+    None
+}
+
 pub fn trace(seed: u64, n: usize) -> Vec<J> {
     let mut rng = rand::rngs::StdRng::seed_from_u64(seed);
     let mut ctx = Ctx { dir: scratch(), n: 0 };
@@ -244,7 +282,10 @@ pub fn trace(seed: u64, n: usize) -> Vec<J> {
     let mut ev = Vec::new();
     for round in 0..n {
         let whole = round >= 1 && round <= cs[n_small].queries.len();       // rounds 1..6: the corpus at scale, once under each of its queries
-        let c = if whole { &cs[n_small] } else { &cs[rng.gen_range(0..n_small)] };
+        // one round in four: a table nobody wrote by hand -- a random definition (patterns in capture / split mode, inline patterns, JSON paths, every type and
+        // modifier: the generator of the extraction traces) over random lines; its noise lines are the lines the engine itself gives no row for
+        let random_corpus = if !whole && rng.gen_range(0..4) == 0 { random_corpus(&mut rng, &ctx.dir, round) } else { None };
+        let c = if whole { &cs[n_small] } else if let Some(rc) = &random_corpus { rc } else { &cs[rng.gen_range(0..n_small)] };
         let tables = setup_tables(&std::fs::read_to_string(c.defs).unwrap()).unwrap();
         let all: Vec<String> = std::fs::read_to_string(c.data).unwrap().lines().map(|l| l.to_string()).collect();
         let len = if whole { all.len() } else { rng.gen_range(1..=std::cmp::min(all.len(), 40)) };
